@@ -559,6 +559,9 @@ impl DrawState {
         // accurately reflect the number of lines that have been displayed on the terminal, if the
         // full height exceeds the terminal height.
         let mut real_height = VisualLines::default();
+        // Number of lines written and the filler that parks the cursor at the right edge of
+        // the last one of them
+        let mut last_written = None;
 
         for (idx, line) in self.lines.iter().enumerate() {
             let line_height = line.wrapped_height(term_width);
@@ -583,14 +586,21 @@ impl DrawState {
 
             // An empty first line does not wrap by itself: print a blank so that it occupies
             // the row it is counted for (the last line gets its filler below).
-            if idx == 0 && nothing_cleared && self.lines.len() > 1 && line.console_width() == 0 {
+            let mut used = line.console_width();
+            if idx == 0 && nothing_cleared && self.lines.len() > 1 && used == 0 {
                 term.write_str(" ")?;
+                used = 1;
             }
 
-            if idx + 1 == self.lines.len() {
-                // For the last line of the output, keep the cursor on the right terminal
-                // side so that next user writes/prints will happen on the next line
-                let last_line_filler = line_height.as_usize() * term_width - line.console_width();
+            last_written = Some((idx + 1, line_height.as_usize() * term_width - used));
+        }
+
+        // For the last line of the output, keep the cursor on the right terminal
+        // side so that next user writes/prints will happen on the next line. If the bars were
+        // cut off at the terminal height, the next draw starts by clearing the last bar's row,
+        // so this is only needed when no bar line was painted at all.
+        if let Some((written, last_line_filler)) = last_written {
+            if written == self.lines.len() || real_height + shift == VisualLines::default() {
                 term.write_str(&" ".repeat(last_line_filler))?;
             }
         }
